@@ -133,6 +133,11 @@ def run(ctx):
             elif want and want not in contents:
                 violations.append({"what": "%s reported success but the key does not hold the new value: %s (failed call: %s %s)" % (opn, contents, call, er), "classification": dict(label, kind="masked"),
                                    "replay": {"kind": "fault", "scenario": L, "fault_seq": seq, "errno": er, "result": impl.results[1][1]}})
+            # a put never overwrites: whatever failed on the way, a put that reports success onto a key that was
+            # present has left the old value in place (ESTALE / ENOENT on the entry itself aside: then it is "absent")
+            if opn in ("put", "put_temp") and desc["pre"] == "present" and er not in ("ESTALE", "ENOENT") and contents and "A" not in contents:
+                violations.append({"what": "%s reported success but REPLACED the existing value: %s (failed call: %s %s)" % (opn, contents, call, er), "classification": dict(label, kind="put-overwrote"),
+                                   "replay": {"kind": "fault", "scenario": L, "fault_seq": seq, "errno": er, "result": impl.results[1][1]}})
             # ESTALE is, by the library's documented design (benign_error.rs), an ABSENCE: the entry is gone for
             # this client; a second copy is then the correct outcome of a write, not a masked failure
             if len(contents) > 1 and er != "ESTALE":
